@@ -327,10 +327,11 @@ const (
 	vC10Stop    // the agent is being stopped
 	vC10Delete  // a Session Deletion Request of the same peer is in flight
 	vC10HBReq   // a Heartbeat Request of the same peer is in flight
+	vC10Establish // a Session Establishment Request of the same peer is in flight
 	vC10NTriggers
 )
 
-var vC10Names = []string{"none", "release", "read-timeout", "heartbeat-failure", "stop", "deletion-in-flight", "heartbeat-in-flight"}
+var vC10Names = []string{"none", "release", "read-timeout", "heartbeat-failure", "stop", "deletion-in-flight", "heartbeat-in-flight", "establishment-in-flight"}
 
 type vC10Assoc struct {
 	pc   *PFCPConn
@@ -460,6 +461,9 @@ func (w *vC10World) fire(t int) {
 		a.conn.deliver(vMarshal(vDeletion(22, a.seid)))
 	case vC10HBReq:
 		a.conn.deliver(vMarshal(message.NewHeartbeatRequest(23, ie.NewRecoveryTimeStamp(vTS), nil)))
+	case vC10Establish:
+		pdrs, fars, qers := vConcreteRules()
+		a.conn.deliver(vMarshal(vEstablishment(24, 0xee, "cp.test", pdrs, fars, qers)))
 	}
 }
 
@@ -499,8 +503,22 @@ func (w *vC10World) checkUnaffected(a *vC10Assoc, out *[]vC10Res) {
 		vC10Res{"other-association:socket-open", closedN == 0})
 }
 
+// leftover: sessions that were created in the datapath and never removed.
+func (d *vTDatapath) leftover() int {
+	d.mu.Lock()
+	defer d.mu.Unlock()
+	n := 0
+	for k, c := range d.creates {
+		if d.dels[k] < c {
+			n++
+		}
+	}
+	return n
+}
+
 func (w *vC10World) checkStopped(out *[]vC10Res) {
-	*out = append(*out, vC10Res{"stop:completes", w.nodeDone()})
+	*out = append(*out, vC10Res{"stop:completes", w.nodeDone()},
+		vC10Res{"stop:no-session-of-an-ended-association-is-left-in-the-datapath", w.dp.leftover() == 0})
 	for _, a := range w.assocs {
 		*out = append(*out,
 			vC10Res{"stop:each-session-removed-from-the-datapath", w.dp.delsOf(a.seid) >= 1},
